@@ -38,6 +38,10 @@ def gen_roundtrip(rng):
     r = L.gen_request(rng, g, op="setup", plain=True)
     r["inexact"] = inexact
     u = dict(r, op="unsetup", ver=None)
+    if g.get("nstacks", 1) > 1 and rng.random() < 0.6:
+        # the unsetup command runs with another EUPS_PATH than the setup (setup -Z other p; unsetup p): the record's
+        # -Z names the stack, so the right table is unwound whatever the path
+        u["path"] = rng.choice([[0], [1], [0, 1], [1, 0]])
     hist += [r, u]
     return {"graph": g, "prior": prior, "prior_mode": mode, "history": hist}
 
